@@ -694,3 +694,80 @@ Proof.
 Qed.
 
 End Close.
+
+(* ---------- the trace acceptor only accepts observable projections of complete runs -------------------- *)
+
+Lemma obs_of_app : forall a b, obs_of (a ++ b) = obs_of a ++ obs_of b.
+Proof. intros. unfold obs_of. apply flat_map_app. Qed.
+
+Lemma obs_eqb_eq : forall a b, obs_eqb a b = true -> a = b.
+Proof.
+  intros [i|i x|] [j|j y|] H; cbn in H; try discriminate; try reflexivity.
+  - apply Nat.eqb_eq in H. congruence.
+  - apply andb_true_iff in H. destruct H as [H1 H2]. apply Nat.eqb_eq in H1. apply Bool.eqb_prop in H2. congruence.
+Qed.
+
+Lemma step_if_silent_run : forall c t c', step_if_silent c t = Some c' ->
+  exists tr, run c [t] = Some (c', tr) /\ obs_of tr = [].
+Proof.
+  intros c t c' H. unfold step_if_silent in H. destruct (thr c t) as [|a rest] eqn:Ht; [discriminate|].
+  destruct (silent a) eqn:Hs; [|discriminate]. destruct (step c t) as [[c1 a1]|] eqn:Hst; [|discriminate].
+  inversion H; subst c1. exists [(t, a1)]. cbn [run]. rewrite Hst. split; [reflexivity|].
+  apply step_inv in Hst. destruct Hst as [_ [rest' [Ht' _]]]. rewrite Ht in Ht'. inversion Ht'; subst.
+  unfold obs_of. cbn. destruct a1; try reflexivity. discriminate.
+Qed.
+
+Lemma first_silent_run : forall ts c c', first_silent c ts = Some c' ->
+  exists sched tr, run c sched = Some (c', tr) /\ obs_of tr = [].
+Proof.
+  induction ts as [|t ts IH]; intros c c' H; [discriminate|].
+  cbn [first_silent] in H. destruct (step_if_silent c t) as [c1|] eqn:E.
+  - inversion H; subst. destruct (step_if_silent_run _ _ _ E) as [tr [Hr Ho]]. exists [t], tr. split; assumption.
+  - apply IH. assumption.
+Qed.
+
+Lemma saturate_run : forall fuel ts c, exists sched tr, run c sched = Some (saturate fuel ts c, tr) /\ obs_of tr = [].
+Proof.
+  induction fuel as [|f IH]; intros ts c.
+  - exists [], []. split; reflexivity.
+  - cbn [saturate]. destruct (first_silent c ts) as [c1|] eqn:E.
+    + destruct (first_silent_run _ _ _ E) as [s1 [tr1 [Hr1 Ho1]]]. destruct (IH ts c1) as [s2 [tr2 [Hr2 Ho2]]].
+      exists (s1 ++ s2), (tr1 ++ tr2). split; [eapply run_app; eassumption|].
+      rewrite obs_of_app, Ho1, Ho2. reflexivity.
+    + exists [], []. split; reflexivity.
+Qed.
+
+Lemma accept_one_run : forall fuel ts c o c', accept_one fuel ts c o = Some c' ->
+  exists sched tr, run c sched = Some (c', tr) /\ obs_of tr = [o].
+Proof.
+  intros fuel ts c o c' H. unfold accept_one in H.
+  destruct (saturate_run fuel ts c) as [s1 [tr1 [Hr1 Ho1]]]. set (c1 := saturate fuel ts c) in *.
+  destruct (thr c1 (owner o)) as [|a rest] eqn:Ht; [discriminate|]. destruct a; try discriminate.
+  destruct (obs_eqb o o0) eqn:Eo; [|discriminate]. apply obs_eqb_eq in Eo. subst o0.
+  destruct (step c1 (owner o)) as [[c2 a2]|] eqn:Hs; [|discriminate]. inversion H; subst c2.
+  pose proof Hs as Hs'. apply step_inv in Hs'. destruct Hs' as [_ [rest' [Ht' _]]]. rewrite Ht in Ht'. inversion Ht'; subst.
+  exists (s1 ++ [owner o]), (tr1 ++ [(owner o, AEv o)]). split.
+  - eapply run_app; [exact Hr1|]. cbn [run]. rewrite Hs. reflexivity.
+  - rewrite obs_of_app, Ho1. reflexivity.
+Qed.
+
+Lemma accept_all_run : forall fuel ts h c c', accept_all fuel ts c h = Some c' ->
+  exists sched tr, run c sched = Some (c', tr) /\ obs_of tr = h.
+Proof.
+  intros fuel ts h. induction h as [|o h IH]; intros c c' H.
+  - cbn [accept_all] in H. inversion H; subst. apply saturate_run.
+  - cbn [accept_all] in H. destruct (accept_one fuel ts c o) as [c1|] eqn:E; [|discriminate].
+    destruct (accept_one_run _ _ _ _ _ E) as [s1 [tr1 [Hr1 Ho1]]]. destruct (IH _ _ H) as [s2 [tr2 [Hr2 Ho2]]].
+    exists (s1 ++ s2), (tr1 ++ tr2). split; [eapply run_app; eassumption|]. rewrite obs_of_app, Ho1, Ho2. reflexivity.
+Qed.
+
+Theorem close_accepts_sound : forall n fails h, close_accepts n fails h = true ->
+  exists sched c tr, run (init (close_prog n fails)) sched = Some (c, tr) /\ obs_of tr = h
+    /\ forall t, t <= n -> thr c t = [].
+Proof.
+  intros n fails h H. unfold close_accepts in H.
+  destruct (accept_all (4 * n + 8) (seq 0 (S n)) (init (close_prog n fails)) h) as [c|] eqn:E; [|discriminate].
+  destruct (accept_all_run _ _ _ _ _ E) as [sched [tr [Hr Ho]]]. exists sched, c, tr. repeat split; try assumption.
+  intros t Ht. rewrite forallb_forall in H. specialize (H t). destruct (thr c t); [reflexivity|].
+  assert (In t (seq 0 (S n))) by (apply in_seq; lia). specialize (H H0). discriminate.
+Qed.
